@@ -30,19 +30,32 @@ fn moments(op: &Op) -> R {
     if ints.is_empty() {
         return Ok(());
     }
-    let scale = [1.0, 0.125, 0.1, 1e6][op.aux.get(1).and_then(|a| a.first()).copied().unwrap_or(0).rem_euclid(4) as usize];
+    let scale = [1.0, 0.125, 0.1, 1e6, 1e-5, 0.001][op.aux.get(1).and_then(|a| a.first()).copied().unwrap_or(0).rem_euclid(6) as usize];
+    let kind = op.aux.get(2).and_then(|a| a.first()).copied().unwrap_or(0);
+    let offset = op.aux.get(3).and_then(|a| a.first()).copied().unwrap_or(0) as f64;
     let p = op.idx.first().copied().unwrap_or(0).min(10) as u16;
-    let a = Array1::from(ints.iter().map(|&v| v as f64 * scale).collect::<Vec<f64>>());
+    let vals: Vec<f64> = ints.iter().map(|&v| v as f64 * scale + offset).collect();
+    if kind == 1 {
+        moments_t(Array1::from(vals.iter().map(|&v| v as f32).collect::<Vec<f32>>()), p, |x: f32| x.to_bits() as u64)
+    } else {
+        moments_t(Array1::from(vals), p, |x: f64| x.to_bits())
+    }
+}
+
+fn moments_t<T>(a: Array1<T>, p: u16, bits: impl Fn(T) -> u64) -> R
+where
+    T: Float + FromPrimitive + std::fmt::Debug,
+{
     let bulk = a.central_moments(p).map_err(|_| ("bulk-vs-single:moments".to_string(), "central_moments on non-empty data returned EmptyInput".to_string()))?;
     if bulk.len() != p as usize + 1 {
         return Err(("bulk-vs-single:moments".into(), format!("central_moments({}) returned {} entries", p, bulk.len())));
     }
     for k in 0..=p {
         let single = a.central_moment(k).map_err(|_| ("bulk-vs-single:moments".to_string(), "central_moment returned EmptyInput".to_string()))?;
-        if single.to_bits() != bulk[k as usize].to_bits() {
+        if bits(single) != bits(bulk[k as usize]) {
             return Err((
                 "bulk-vs-single:moments".into(),
-                format!("central_moments({})[{}] = {:?} but central_moment({}) = {:?} on {:?}", p, k, bulk[k as usize], k, single, a),
+                format!("central_moments({})[{}] = {:?} but central_moment({}) = {:?} (not bit-identical) on {} values of type {}, first few {:?}", p, k, bulk[k as usize], k, single, a.len(), std::any::type_name::<T>(), a.iter().take(6).collect::<Vec<_>>()),
             ));
         }
     }
@@ -99,7 +112,9 @@ where
             ("std", d1, got[3], 4.0 * tol * (sq_terms / denom).sqrt() + (4.0 * tol * sq_terms / denom).sqrt()),
         ];
         for (nm, single, axis_v, t) in checks {
-            let ok = (single.is_nan() && axis_v.is_nan()) || (single - axis_v).abs() <= t || single == axis_v;
+            // "equals": the statement asks for equality, not closeness (NaN == NaN, 0.0 == -0.0 here)
+            let _ = t;
+            let ok = (single.is_nan() && axis_v.is_nan()) || single == axis_v;
             if !ok {
                 return Err(err(
                     "value",
@@ -112,10 +127,10 @@ where
 }
 
 macro_rules! float_weighted {
-    ($t:ty, $shape:expr, $ints:expr, $wints:expr, $axis:expr, $ddof:expr, $f:expr, $static:expr) => {{
-        let data: Vec<$t> = $ints.iter().map(|&v| v as $t * 0.25).collect();
+    ($t:ty, $shape:expr, $ints:expr, $wints:expr, $axis:expr, $ddof:expr, $f:expr, $static:expr, $scale:expr) => {{
+        let data: Vec<$t> = $ints.iter().map(|&v| v as $t * $scale as $t).collect();
         let a = build(&$shape, data, $f);
-        let w = Array1::from($wints.iter().map(|&v| v as $t * 0.5).collect::<Vec<$t>>());
+        let w = Array1::from($wints.iter().map(|&v| v as $t * (if $scale == 0.25 { 0.5 } else { 0.3 }) as $t).collect::<Vec<$t>>());
         let eps = <$t>::EPSILON as f64;
         let ddof = $ddof as $t;
         if $static && $shape.len() == 1 {
@@ -146,6 +161,8 @@ fn weighted(op: &Op) -> R {
     let f_order = op.aux.get(4).and_then(|a| a.first()).copied().unwrap_or(0) == 1;
     let ddof = op.idx.first().copied().unwrap_or(0).min(4) as f64 / 4.0;
     let static_dims = op.idx.get(1).copied().unwrap_or(0) == 1;
+    // values are the listed integers times this factor (0.25 keeps every sum exact, the others do not)
+    let scale: f64 = [0.25, 0.1, 0.001, 1.0 / 3.0][op.aux.get(5).and_then(|a| a.first()).copied().unwrap_or(0).rem_euclid(4) as usize];
     match kind {
         1 => {
             let a = build(&shape, ints.clone(), f_order);
@@ -173,7 +190,7 @@ fn weighted(op: &Op) -> R {
             }
             Ok(())
         }
-        2 => float_weighted!(f32, shape, ints, wints, axis, ddof, f_order, static_dims),
-        _ => float_weighted!(f64, shape, ints, wints, axis, ddof, f_order, static_dims),
+        2 => float_weighted!(f32, shape, ints, wints, axis, ddof, f_order, static_dims, scale),
+        _ => float_weighted!(f64, shape, ints, wints, axis, ddof, f_order, static_dims, scale),
     }
 }
